@@ -82,6 +82,7 @@ pub fn all() -> Vec<Box<dyn Check>> {
     v.push(Box::new(c18::C18));
     v.push(Box::new(Reuse { property: "C14", family: "c14_monitor_on_random_history", inner: Box::new(c08::C08Driver), quick_runs: 12000, thorough_runs: 180000 }));
     v.push(Box::new(Reuse { property: "C13", family: "c13_monitor_on_closed_loop_faults", inner: Box::new(c02_faults()), quick_runs: 3200, thorough_runs: 90000 }));
+    v.push(Box::new(Reuse { property: "C13", family: "c13_monitor_on_closed_loop_peer_delay", inner: Box::new(c02::C02 { family: "c02_closed_loop_peer_delay", faults: false, p2p: true, quick_runs: 1600, thorough_runs: 40000 }), quick_runs: 1600, thorough_runs: 40000 }));
     v.push(Box::new(Reuse { property: "C13", family: "c13_monitor_on_random_history", inner: Box::new(c08::C08Driver), quick_runs: 12000, thorough_runs: 180000 }));
     v.push(Box::new(Reuse { property: "C13", family: "c13_monitor_on_noisy_networks", inner: Box::new(c01_noisy()), quick_runs: 2400, thorough_runs: 60000 }));
     v.push(Box::new(Reuse { property: "C08", family: "c08_monitor_on_networks", inner: Box::new(c01_noisy()), quick_runs: 3200, thorough_runs: 90000 }));
